@@ -6,6 +6,8 @@ import random
 import torch
 
 torch.set_num_threads(4)
+import warnings
+warnings.filterwarnings("ignore")
 
 EXC_NAMES = {"InputOutsideDomain": "InputOutsideDomain", "InverseNotAvailable": "InverseNotAvailable"}
 
